@@ -41,6 +41,23 @@ def gen(rng, tier):
         n = G.random_nfa(rng, k, sigma, eps, peps=rng.choice([0.0, 0.2, 0.5]))
         sets = [rng.sample(n['Q'], rng.randint(0, k)) for _ in range(3)]
         cases.append({'kind': 'nfa', 'N': n, 'ws': G.random_words(rng, sigma, 24, 7), 'sets': sets})
+    # epsilon cycles of length 3-5 that are entered at one state and re-entered at another through a letter (closures of
+    # inner states of a cycle must be complete), with a few states outside the cycle; all words up to length 3
+    for _ in range(150 if quick else 3000):
+        k, extra = rng.randint(3, 5), rng.randint(1, 2)
+        sigma = rng.choice(['ab', 'ab', 'abc'])
+        eps = rng.choice(['_', '', 'e'])
+        Q = ['q%d' % i for i in range(k + extra)]
+        d = {}
+        for i in range(k):
+            d.setdefault((Q[i], eps), set()).add(Q[(i + 1) % k])
+        for _ in range(rng.randint(2, 6)):
+            d.setdefault((rng.choice(Q), rng.choice(sigma)), set()).add(rng.choice(Q))
+        if rng.random() < 0.3:
+            d.setdefault((rng.choice(Q), eps), set()).add(rng.choice(Q))
+        F = [q for q in Q[k:] if rng.random() < 0.7] or [Q[-1]]
+        n = {'Q': Q, 'Sigma': list(sigma), 'delta': sorted([q, a, sorted(qs)] for (q, a), qs in d.items()), 'q0': rng.choice(Q[:k]), 'F': F, 'eps': eps}
+        cases.append({'kind': 'nfa', 'N': n, 'ws': G.words_str(n['Sigma'], 3), 'sets': [rng.sample(Q, 2)]})
     # partial transition relations given as a plain dict (no defaultdict): a missing key means the empty set
     for _ in range(40 if quick else 600):
         sigma = rng.choice(['a', 'ab'])
